@@ -162,6 +162,7 @@ package transaction
 //@ requires w != nil && io.validR(br)
 //@ modifies w.InvocationScript, w.VerificationScript, br.Err, br.uv, br.r.pos
 //@ ensures[reader] old(br.r.pos) <= br.r.pos && io.validR(br)
+//@ ensures[sticky] old(br.Err) != nil ==> br.Err != nil
 //@ ensures[bound] len(w.InvocationScript) <= MaxInvocationScript && len(w.VerificationScript) <= MaxVerificationScript
 
 //@ func (*Signer).DecodeBinary
